@@ -17,6 +17,7 @@ import (
 	"math/big"
 	"os"
 	"runtime"
+	"strings"
 	"testing"
 	"testing/synctest"
 	"time"
@@ -66,12 +67,17 @@ func generate(seed uint64, prop string) simrt.Case {
 	r := simrt.NewRand(seed)
 	cfg := config{Seed: seed, Replicas: 3 + r.Intn(3), Accounts: 2 + r.Intn(3), PartSize: []int{256, 4096, 65536}[r.Intn(3)]}
 	nblocks := 3 + r.Intn(7)
+	if prop == "C06" {
+		cfg.Replicas = 1
+		nblocks = 3 + r.Intn(3)
+	}
 	var acts []simrt.Action
 	ntx := 0
 	for b := 0; b < nblocks; b++ {
 		// replica histories before this block
 		for rp := 1; rp < cfg.Replicas; rp++ {
-			switch r.Pick([]int{60, 20, 12, 8}) {
+			// C05 grants stops and restarts, not crashes (crash consistency is C06's subject)
+			switch r.Pick([]int{60, 25, 0, 10}) {
 			case 1:
 				acts = append(acts, simrt.Action{K: "restart", N: rp})
 			case 2:
@@ -95,6 +101,9 @@ func generate(seed uint64, prop string) simrt.Case {
 			ntx++
 		}
 		acts = append(acts, simrt.Action{K: "block"})
+	}
+	if prop == "C06" {
+		acts = append(acts, simrt.Action{K: "enumerate", A: int64(2 + r.Intn(nblocks-2)), B: int64(r.Intn(1 << 16))})
 	}
 	bz, _ := json.Marshal(cfg)
 	return simrt.Case{Config: bz, Actions: acts}
@@ -142,16 +151,18 @@ type world struct {
 	routines []int
 	armed    []int64
 	// reference model
-	nonces     map[common.Address]uint64
-	contracts  []common.Address
-	sent       []*txInfo
-	kvRef      map[string][]string // key -> history of values
-	chain      []*types.Block
-	chainParts []*types.PartSet
-	commits    []*types.Commit
-	prop       string
-	next       map[common.Address]uint64
-	certainInvalid []map[int]bool
+	nonces          map[common.Address]uint64
+	contracts       []common.Address
+	sent            []*txInfo
+	kvRef           map[string][]string // key -> history of values
+	chain           []*types.Block
+	chainParts      []*types.PartSet
+	commits         []*types.Commit
+	prop            string
+	next            map[common.Address]uint64
+	certainInvalid  []map[int]bool
+	refApp, refRcpt [][]byte
+	quietStart      bool
 }
 
 func (w *world) viol(prop, oracle, key, f string, a ...interface{}) {
@@ -185,12 +196,26 @@ func (w *world) startReplica(nd *fullnode.Node) bool {
 		inc.Build(w.env)
 		inc.StartEvents()
 	})
-	if !ok {
+	if !ok && !w.quietStart {
 		if inc.PanicSite != "" || inc.Exited != "" {
-			w.viol("C06", "recovery-failed", fullnode.PanicKey(inc.PanicVal, inc.PanicStk), "replica %d did not come up from its disk: %s %s", nd.ID, inc.PanicVal, inc.Exited)
+			w.viol("C06", "recovery-failed", failReason(inc), "replica %d did not come up from its disk: %s %s", nd.ID, inc.PanicVal, inc.Exited)
 		}
 	}
 	return ok
+}
+
+// failReason: a stable short name for why a node did not start.
+func failReason(inc *fullnode.Inc) string {
+	v := inc.PanicVal + inc.Exited
+	switch {
+	case strings.Contains(v, "is higher than core"):
+		return "app-height-above-core"
+	case strings.Contains(v, "height mismatch"):
+		return "state-store-height-mismatch"
+	case strings.Contains(v, "Unexpected state.AppHash"):
+		return "unexpected-state-apphash"
+	}
+	return fullnode.PanicKey(inc.PanicVal, inc.PanicStk)
 }
 
 func (w *world) mkTx(a simrt.Action) *txInfo {
@@ -313,10 +338,7 @@ func (w *world) expected(ti *txInfo) (bool, bool) {
 	if ti.nonce != w.nonces[acct.addr] {
 		return false, true
 	}
-	k := ti.kind
-	if len(k) > 7 && k[:7] == "replay:" {
-		k = k[7:]
-	}
+	k := baseKind(ti.kind)
 	switch k {
 	case "kv-bad":
 		return false, true
@@ -499,6 +521,8 @@ func run(t *testing.T, prop string, c simrt.Case, out *simrt.Outcome, lg *simrt.
 			if a.N > 0 && a.N < len(w.reps) {
 				w.armed[a.N] = a.A
 			}
+		case "enumerate":
+			w.enumerate(a.A, a.B)
 		case "routines":
 			if a.N > 0 && a.N < len(w.reps) {
 				w.routines[a.N] = int(a.A)
@@ -527,10 +551,7 @@ func run(t *testing.T, prop string, c simrt.Case, out *simrt.Outcome, lg *simrt.
 				}
 				if v && cert {
 					acct := w.accts[ti.sender%len(w.accts)]
-					k := ti.kind
-					if len(k) > 7 && k[:7] == "replay:" {
-						k = k[7:]
-					}
+					k := baseKind(ti.kind)
 					if k == "create" {
 						w.contracts = append(w.contracts, ethcrypto.CreateAddress(acct.addr, w.nonces[acct.addr]))
 					}
@@ -599,6 +620,8 @@ func run(t *testing.T, prop string, c simrt.Case, out *simrt.Outcome, lg *simrt.
 			}
 			// ---- C05: all replicas agree with the reference replica
 			ref := w.reps[0].Inc
+			w.refApp = append(w.refApp, append([]byte{}, ref.State.AppHash...))
+			w.refRcpt = append(w.refRcpt, append([]byte{}, ref.State.ReceiptsHash...))
 			out.Evals["C05.hashes"]++
 			for _, nd := range w.reps[1:] {
 				st := nd.Inc.State
@@ -650,10 +673,7 @@ func run(t *testing.T, prop string, c simrt.Case, out *simrt.Outcome, lg *simrt.
 				out.Evals["C09.receipt"]++
 				code, _, _ := w.query(ref, rtypes.QueryType_Receipt, txHash(ti.raw))
 				has := code == types.CodeType_OK
-				k := ti.kind
-				if len(k) > 7 && k[:7] == "replay:" {
-					k = k[7:]
-				}
+				k := baseKind(ti.kind)
 				isKV := k == "kv" || k == "kv-bad"
 				if verdicts[i].valid && !isKV && !has {
 					w.viol("C09", "valid-tx-without-receipt", k, "transaction %d of block %d (%s) is valid by the nonce model but has no receipt", i, h, ti.kind)
@@ -800,4 +820,211 @@ func TestDebug(t *testing.T) {
 	for _, v := range out.Violations {
 		fmt.Printf("VIOLATION %+v\n", v)
 	}
+}
+
+// ---------------------------------------------------------------------------
+// C06: exhaustive single-crash enumeration over the commit of one block.
+
+func writeClass(desc string) string {
+	// "db:data/state setsync stateKey" -> "data/state setsync stateKey"; hex keys are dropped
+	f := strings.Fields(desc)
+	if len(f) == 0 {
+		return desc
+	}
+	out := strings.TrimPrefix(strings.TrimPrefix(f[0], "db:"), "ethdb:")
+	if len(f) > 1 {
+		op := f[1]
+		if i := strings.Index(op, "["); i > 0 {
+			op = op[:i]
+		}
+		out += " " + op
+	}
+	if len(f) > 2 {
+		k := f[2]
+		printable := len(k) < 24
+		for _, c := range k {
+			if !(c >= 'a' && c <= 'z' || c >= 'A' && c <= 'Z' || c == ':' || c == '-' || c == '_') {
+				printable = false
+			}
+		}
+		if printable {
+			out += " " + k
+		} else if strings.HasPrefix(k, "H:") || strings.HasPrefix(k, "P:") || strings.HasPrefix(k, "C:") || strings.HasPrefix(k, "SC:") {
+			out += " " + k[:strings.Index(k, ":")+1]
+		}
+	}
+	return out
+}
+
+func (w *world) newVictim() *fullnode.Node {
+	id := len(w.reps)
+	key := crypto.GenPrivKeyEd25519FromSecret([]byte(fmt.Sprintf("victim-%d-%d", w.cfg.Seed, id)))
+	nd := fullnode.NewNode(id, key, w.base)
+	w.reps = append(w.reps, nd)
+	w.routines = append(w.routines, 1+id%8)
+	w.armed = append(w.armed, 0)
+	return nd
+}
+
+func (w *world) retire(nd *fullnode.Node) {
+	if nd.Inc != nil {
+		nd.Inc.Life.Kill("retired")
+		nd.Inc.Quiesce()
+	}
+	os.RemoveAll(nd.Dir)
+}
+
+// agree checks that store, state and application of a freshly recovered node agree on one height and its hashes.
+func (w *world) agree(nd *fullnode.Node, key, when string) (int64, bool) {
+	inc := nd.Inc
+	var info types.ResultInfo
+	if !w.call(inc, "info", func() { info = inc.App.Info() }) {
+		w.viol("C06", "recovery-wedged", key, "%s: the application does not answer Info()", when)
+		return 0, false
+	}
+	sh, th, ah := inc.Store.Height(), inc.State.LastBlockHeight, int64(info.LastBlockHeight)
+	w.out.Evals["C06.agree"]++
+	if !(sh == th && th == ah) {
+		w.viol("C06", "heights-disagree", key, "%s: block store is at height %d, consensus state at %d, application at %d", when, sh, th, ah)
+		return th, false
+	}
+	if th > 0 && th <= int64(len(w.refApp)) {
+		if !bytes.Equal(inc.State.AppHash, w.refApp[th-1]) || !bytes.Equal(info.LastBlockAppHash, w.refApp[th-1]) {
+			w.viol("C06", "apphash-after-recovery", key, "%s: at height %d the state holds application hash %X, the application %X, the uncrashed run %X", when, th, fp(inc.State.AppHash), fp(info.LastBlockAppHash), fp(w.refApp[th-1]))
+			return th, false
+		}
+		if !bytes.Equal(inc.State.ReceiptsHash, w.refRcpt[th-1]) {
+			w.viol("C06", "receiptshash-after-recovery", key, "%s: at height %d the state holds receipts hash %X, the uncrashed run %X", when, th, fp(inc.State.ReceiptsHash), fp(w.refRcpt[th-1]))
+			return th, false
+		}
+	}
+	return th, true
+}
+
+func (w *world) enumerate(target int64, salt int64) {
+	out := w.out
+	B := int64(len(w.chain))
+	if target < 1 || target > B || len(out.Violations) > 0 {
+		return
+	}
+	ref := w.reps[0].Inc
+	refFinger := w.fingerprint(ref)
+	// scout: how many durable writes does the commit of the target block issue, and which?
+	scout := w.newVictim()
+	if !w.startReplica(scout) {
+		return
+	}
+	for h := int64(1); h < target; h++ {
+		w.apply(scout, h)
+	}
+	scout.Inc.Life.LogWrites(true)
+	w0 := scout.Inc.Life.Writes()
+	w.apply(scout, target)
+	W := scout.Inc.Life.Writes() - w0
+	wl := scout.Inc.Life.WriteLog()
+	w.retire(scout)
+	out.Probes["C06_writes_in_commit"] += W
+	rr := simrt.NewRand(w.cfg.Seed ^ uint64(salt))
+	for k := 1; k <= W; k++ {
+		class := writeClass(wl[k-1])
+		nested := rr.Chance(1, 3)
+		out.Cases++
+		nd := w.newVictim()
+		if !w.startReplica(nd) {
+			w.retire(nd)
+			continue
+		}
+		for h := int64(1); h < target; h++ {
+			w.apply(nd, h)
+		}
+		nd.Inc.Life.ArmCrash(k)
+		if w.apply(nd, target) || !nd.Inc.Life.Dead() {
+			w.retire(nd) // the crash point was not reached (write counts differ): nothing to judge
+			continue
+		}
+		out.DistinctCases++
+		out.Faults["crash before: "+class]++
+		nd.Inc.Quiesce()
+		when := fmt.Sprintf("block %d of %d, crash before write %d of %d (%s)", target, B, k, W, class)
+		started := false
+		if nested {
+			// a second crash while the node recovers
+			j := 1 + rr.Intn(6)
+			inc := nd.NewInc()
+			inc.Life.ArmCrash(j)
+			okb := w.call(inc, "build", func() {
+				inc.Build(w.env)
+				inc.StartEvents()
+			})
+			if okb {
+				inc.Life.Disarm()
+				started = true
+			} else if inc.PanicSite != "" || inc.Exited != "" {
+				w.viol("C06", "recovery-failed", class+" -> "+failReason(inc), "%s: the node does not come up again: %.300s %s", when, inc.PanicVal, inc.Exited)
+				w.retire(nd)
+				continue
+			} else {
+				out.Faults["crash during recovery"]++
+				inc.Quiesce()
+				when += fmt.Sprintf(", second crash before write %d of the recovery", j)
+			}
+		}
+		if !started {
+			w.quietStart = true
+			okStart := w.startReplica(nd)
+			w.quietStart = false
+			if !okStart {
+				inc := nd.Inc
+				if inc.PanicSite != "" || inc.Exited != "" {
+					w.viol("C06", "recovery-failed", class+" -> "+failReason(inc), "%s: the node does not come up again: %.300s %s", when, inc.PanicVal, inc.Exited)
+				}
+				w.retire(nd)
+				continue
+			}
+		}
+		if _, ok := w.agree(nd, class, when); !ok {
+			w.retire(nd)
+			continue
+		}
+		// every block that was readable before is still readable and unchanged
+		for h := int64(1); h < target; h++ {
+			out.Evals["C06.block-readable"]++
+			meta := nd.Inc.Store.LoadBlockMeta(h)
+			if meta == nil || !bytes.Equal(meta.Hash, w.chain[h-1].Hash()) {
+				w.viol("C06", "block-lost", class, "%s: block %d is not readable unchanged after recovery", when, h)
+			}
+		}
+		// the node goes on: the rest of the chain, compared with the uncrashed run height by height
+		okAll := true
+		for h := nd.Inc.State.LastBlockHeight + 1; h <= B && okAll; h++ {
+			if !w.apply(nd, h) {
+				inc := nd.Inc
+				w.viol("C06", "cannot-continue", class, "%s: the recovered node cannot execute block %d: %.200s", when, h, inc.PanicVal)
+				okAll = false
+				break
+			}
+			out.Evals["C06.continue"]++
+			if !bytes.Equal(nd.Inc.State.AppHash, w.refApp[h-1]) {
+				w.viol("C06", "apphash-after-recovery", class, "%s: after block %d the recovered node has application hash %X, the uncrashed run %X", when, h, fp(nd.Inc.State.AppHash), fp(w.refApp[h-1]))
+				okAll = false
+			} else if !bytes.Equal(nd.Inc.State.ReceiptsHash, w.refRcpt[h-1]) {
+				w.viol("C06", "receiptshash-after-recovery", class, "%s: after block %d the recovered node has receipts hash %X, the uncrashed run %X", when, h, fp(nd.Inc.State.ReceiptsHash), fp(w.refRcpt[h-1]))
+				okAll = false
+			}
+		}
+		if okAll {
+			out.Evals["C06.exactly-once"]++
+			if f := w.fingerprint(nd.Inc); f != refFinger {
+				w.viol("C06", "not-applied-exactly-once", class, "%s: nonces, receipts, key values or key-update histories of the recovered node differ from the uncrashed run although all hashes agree", when)
+			}
+		}
+		w.retire(nd)
+	}
+}
+
+func baseKind(k string) string {
+	for strings.HasPrefix(k, "replay:") {
+		k = k[7:]
+	}
+	return k
 }
